@@ -180,11 +180,32 @@ def check_search(run, db):
         # values, not names: in the first iteration the forward cursor is `first`, the backward cursor is `last`
         ctx = checks_in_context(db, f, FIND_ITV_ROLES)
         lams = [sym.strip_casts(t['args'][0]).get('fn') for e, t in flow.call_events(f) if t.get('short') == 'debug_check_double_dealloc' and t.get('args')]
-        rets = [lambda_rets(db, k, FIND_ITV_ROLES, ctx.get(k))[0] for k in lams]
-        flat = [r[0] if r and len(r) >= 1 else None for r in rets]
-        ne = lambda a: ('(%s != $memory)' % a, '($memory != %s)' % a)
-        in_loop = [r for r in flat if r and any(x in r for x in ne('$first')) and any(x in r for x in ne('$last')) and '&&' in r]
-        off_end = [r for r in flat if r == 'false']
+        # what each check lambda accepts, as facts per accepting path: the path's decided conditions plus the returned expression
+        # (`a != m && b != m`, nested ifs, early `return false`s are the same set of facts)
+        def accepted_facts(k):
+            lam = db.fns.get(k)
+            out = []
+            if lam is None:
+                return None
+            for sm in fwd.summarize(lam, roles=FIND_ITV_ROLES, init_vals=ctx.get(k) or {}, db=db):
+                if sm.end != 'return' or sm.ret == 'false':
+                    continue
+                atoms = list(sm.cond_terms)
+                if sm.ret != 'true' and sm.ret_term is not None:
+                    atoms += fwd.split_condition(sm.ret_term, True)
+                facts = set()
+                for a, tk in atoms:
+                    a0 = sym.strip_casts(a)
+                    if isinstance(a0, dict) and a0.get('k') == 'bin' and a0.get('op') in ('==', '!='):
+                        differ = (a0['op'] == '!=') == bool(tk)
+                        if differ:
+                            facts.add(frozenset((sym.canon(a0['l'], FIND_ITV_ROLES), sym.canon(a0['r'], FIND_ITV_ROLES))))
+                out.append(facts)
+            return out
+        acc = [accepted_facts(k) for k in lams]
+        both = lambda fs: frozenset(('$first', '$memory')) in fs and frozenset(('$last', '$memory')) in fs
+        in_loop = [a for a in acc if a and all(both(fs) for fs in a)]
+        off_end = [a for a in acc if a is not None and not a]
         probs = []
         if not in_loop:
             probs.append('the search loop does not test the node against both cursors')
@@ -225,12 +246,18 @@ def check_range(run, db):
         S = [s for s in fwd.summarize(f, db=db, roles=roles, no_forward=True) if s.end == 'return']
         probs = []
         lower = upper = False
-        if not S or S[0].ret_term is None or len({s.ret for s in S}) != 1:
-            # (a short-circuit && yields several paths that all return the same expression)
-            run.broke('chunk::from has %d returning paths with different results; expected a single interval expression' % len(S))
+        # what holds where the function answers true: the conditions the accepting path has decided plus the returned expression
+        # (`a & b`, `a && b`, nested ifs and early `return false`s state the same facts)
+        acc = [s for s in S if s.ret != 'false' and s.ret_term is not None]
+        if len(acc) != 1:
+            run.broke('chunk::from has %d accepting paths; expected a single interval test' % len(acc))
             continue
-        for a in _cmp_atoms(S[0].ret_term):
-            c = linear.compare(a, True, roles)
+        atoms = list(acc[0].cond_terms)
+        if acc[0].ret != 'true':
+            for a in _cmp_atoms(acc[0].ret_term):
+                atoms += fwd.split_condition(a, True)
+        for a, tk in atoms:
+            c = linear.compare(a, tk, roles)
             if not c:
                 probs.append('`%s` is not a comparison' % sym.canon(a, roles)[:60])
                 continue
@@ -365,8 +392,25 @@ def check_handler(run, db):
     for f in db.find(short='debug_check_double_dealloc'):
         n += 1
         inst = '%s [%s]' % (f.display[:120], db.config)
-        calls = [t for e, t in flow.call_events(f) if t.get('short') == 'debug_check_pointer']
-        good = (len(calls) == 1 and [sym.canon(a, {0: 'condition', 1: 'info', 2: 'ptr'}) for a in calls[0]['args']][1:] == ['$info', '$ptr']) if dd else not calls
+        # by effect, debug_check_pointer seen through: the handler is called with (info, ptr) exactly when the condition is false
+        # (when both macros are on), and nothing happens otherwise
+        active = dd and pc
+        S = [s for s in fwd.summarize(f, db=db, roles={0: 'condition', 1: 'info', 2: 'ptr'}, no_forward=True,
+                                      inline_pred=lambda a, c, t: c.short == 'debug_check_pointer') if s.end in ('return', 'propagate')]
+        good = bool(S)
+        for s in S:
+            h = [c for c in s.calls if c[1].get('short') == 'debug_handle_invalid_ptr']
+            if active:
+                failed = any('condition' in c and not tk for c, tk in s.conds)
+                passed = any('condition' in c and tk for c, tk in s.conds)
+                if failed and (len(h) != 1 or not h[0][0].endswith('($info,$ptr)')):
+                    good = False
+                if passed and h:
+                    good = False
+                if not failed and not passed and s.end == 'return':
+                    good = False
+            elif h or s.calls:
+                good = False
         if good:
             run.ok('R-DBG.handler', inst, f.loc, 'forwards to debug_check_pointer' if dd else 'compiles to nothing')
         else:
